@@ -281,6 +281,21 @@ def compression(P, R, f, out, posv, lv, body):
         R.ob('C12.GRD.2', okc, s, 'the compressed groups are skipped exactly (advance by run - 1 plus the loop step)', key='skip')
         pos_ok = any(is_var(g[0], lv) and g[1] == '==' and is_var(g[2]) for g in f.guards(s.bid))
         R.ob('C12.GRD.2', pos_ok, s, 'compression happens at the start of the longest run', key='at-start', nontrivial=False)
+        # the run that was recorded lies inside the address: start + length <= number of groups (relational; fails when
+        # the start of the longest run is accumulated instead of assigned, or recorded from a stale counter)
+        starts = [g[2]['name'] for g in f.guards(s.bid) if is_var(g[0], lv) and g[1] == '==' and is_var(g[2])]
+        if starts and run:
+            from .. import numeric
+            an = numeric.Analysis(f)
+            ub = None
+            for o in an.at(s):
+                b = o.bound_terms({starts[0]: 1, run: 1})
+                ub = b if ub is None else max(ub, b)
+            ngroups = 8
+            for x in (y for t in f.sites() for ex in rules.event_exprs(t.ev) for y in walk(ex)):
+                if x.get('k') == 'mem' and x.get('field') == 'in6' and isinstance(x.get('arr'), int):
+                    ngroups = x['arr']
+            R.ob('C12.GRD.2', ub is not None and ub <= ngroups, s, 'the recorded run lies inside the address: %s + %s <= %d (inferred upper bound %s)' % (starts[0], run, ngroups, ub), key='run-inside')
     R.floor('C12.GRD.2', 3)
 
 
